@@ -711,7 +711,9 @@ impl ValveServer {
         let max_chunk = MTU - header;
         let max_frags = if split == Split::GoldSrc { 15 } else { 255 };
         let min_frags = whole.len().div_ceil(max_chunk).max(1);
-        let n = enc.frags.clamp(min_frags.max(2).min(max_frags), max_frags).min(whole.len().max(2));
+        // (a compressed answer small enough may travel in one split packet: enc.frags == 1 asks for that)
+        let floor = if split == Split::SourceCompressed && enc.frags == 1 { 1 } else { 2 };
+        let n = enc.frags.clamp(min_frags.max(floor).min(max_frags), max_frags).min(whole.len().max(floor));
         // random cut points, each chunk non-empty and <= max_chunk
         let mut cuts: Vec<usize> = Vec::new();
         let mut pos = 0usize;
@@ -874,7 +876,10 @@ impl Server for ValveServer {
                     self.unknown_requests += 1;
                     return;
                 }
-                if body == [0xff; 4] {
+                // FF FF FF FF asks for a challenge - unless that very value is the challenge this server
+                // handed out and is waiting to see again
+                let awaited_ff = matches!(&self.pending[kind.idx()], Some((c, _, _)) if c.as_slice() == [0xff; 4]);
+                if body == [0xff; 4] && !awaited_ff {
                     None
                 } else {
                     Some(body.try_into().unwrap())
